@@ -18,16 +18,19 @@ import (
 	"runtime"
 	"strconv"
 	"strings"
+	"time"
 
 	"github.com/blinklabs-io/gouroboros/ledger/alonzo"
 	"github.com/blinklabs-io/gouroboros/ledger/babbage"
 	"github.com/blinklabs-io/gouroboros/ledger/common"
 	"github.com/blinklabs-io/gouroboros/ledger/conway"
+	"github.com/blinklabs-io/gouroboros/ledger/dijkstra"
+	"github.com/blinklabs-io/gouroboros/ledger/shelley"
 	mockledger "github.com/blinklabs-io/ouroboros-mock/ledger"
 )
 
 func init() {
-	register(&Prop{ID: "C31", Gen: genC31, Run: runC31})
+	register(&Prop{ID: "C31", Gen: genC31, Run: runC31, Timeout: 10 * time.Minute})
 }
 
 func c31ParseUsed(s string) (map[uint]struct{}, []uint, bool) {
@@ -39,6 +42,22 @@ func c31ParseUsed(s string) (map[uint]struct{}, []uint, bool) {
 			return nil, nil, false
 		}
 		if _, dup := m[uint(v)]; dup {
+			return nil, nil, false
+		}
+		m[uint(v)] = struct{}{}
+		l = append(l, uint(v))
+	}
+	return m, l, true
+}
+
+// c31ParseUsedDup: like c31ParseUsed but repeated versions are allowed (several UTxOs may carry
+// scripts of the same language)
+func c31ParseUsedDup(s string) (map[uint]struct{}, []uint, bool) {
+	m := map[uint]struct{}{}
+	l := []uint{}
+	for _, x := range g9SplitList(s) {
+		v, err := strconv.ParseUint(x, 10, 32)
+		if err != nil {
 			return nil, nil, false
 		}
 		m[uint(v)] = struct{}{}
@@ -136,10 +155,21 @@ func runC31(op string) string {
 		}
 		return hexs(b)
 	case "sdh":
-		if len(f) != 11 {
+		if len(f) != 11 && len(f) != 13 {
 			return "bad-op"
 		}
 		era := f[1]
+		// optional: Plutus versions of the scripts carried by reference-input UTxOs and by
+		// spent-input UTxOs (reference scripts)
+		var refL, inL []uint
+		if len(f) == 13 {
+			var okr, oki bool
+			_, refL, okr = c31ParseUsedDup(f[11])
+			_, inL, oki = c31ParseUsedDup(f[12])
+			if !okr || !oki || era == "alonzo" {
+				return "bad-op"
+			}
+		}
 		red, ok1 := unhex(f[2])
 		nred, e1 := strconv.Atoi(f[3])
 		dat, ok2 := unhex(f[4])
@@ -154,13 +184,41 @@ func runC31(op string) string {
 		if !bytes.Equal(ih, g9Blake256(ipre)) {
 			return "bad-op"
 		}
-		body := [][]byte{g9Uint(0), g9Array(), g9Uint(1), g9Array(), g9Uint(2), g9Uint(0)}
+		utxos := []common.Utxo{}
+		mkIns := func(vs []uint, base byte) [][]byte {
+			out := [][]byte{}
+			for i, v := range vs {
+				id := bytes.Repeat([]byte{base + byte(i)}, 32)
+				out = append(out, g9Array(g9Bytes(id), g9Uint(uint64(i))))
+				var sc common.Script
+				raw := []byte{0x4e, 0x4d, 0x01, 0x00, 0x00, 0x33, 0x22, 0x22, 0x20, 0x05, 0x12, 0x00, 0x12, 0x00, 0x11}
+				switch v {
+				case 0:
+					sc = common.PlutusV1Script(raw)
+				case 1:
+					sc = common.PlutusV2Script(raw)
+				case 2:
+					sc = common.PlutusV3Script(raw)
+				default:
+					sc = common.PlutusV4Script(raw)
+				}
+				utxos = append(utxos, common.Utxo{
+					Id:     shelley.NewShelleyTransactionInput(hexs(id), i),
+					Output: &babbage.BabbageTransactionOutput{TxOutScriptRef: &common.ScriptRef{Type: v + 1, Script: sc}},
+				})
+			}
+			return out
+		}
+		body := [][]byte{g9Uint(0), g9Array(mkIns(inL, 0x10)...), g9Uint(1), g9Array(), g9Uint(2), g9Uint(0)}
 		if f[8] != "-" {
 			d, ok := unhex(f[8])
 			if !ok || len(d) != 32 {
 				return "bad-op"
 			}
 			body = append(body, g9Uint(11), g9Bytes(d))
+		}
+		if len(refL) > 0 {
+			body = append(body, g9Uint(18), g9Array(mkIns(refL, 0x40)...))
 		}
 		ws := [][]byte{}
 		script := g9Bytes([]byte{0x4e, 0x4d, 0x01, 0x00, 0x00, 0x33, 0x22, 0x22, 0x20, 0x05, 0x12, 0x00, 0x12, 0x00, 0x11})
@@ -172,8 +230,16 @@ func runC31(op string) string {
 			}
 			return false
 		}
-		maxV := map[string]uint{"alonzo": 0, "babbage": 1, "conway": 2}[era]
+		maxV, okEra := map[string]uint{"alonzo": 0, "babbage": 1, "conway": 2, "dijkstra": 3}[era]
+		if !okEra {
+			return "bad-op"
+		}
 		for _, v := range usedL {
+			if v > maxV {
+				return "bad-op"
+			}
+		}
+		for _, v := range append(append([]uint{}, refL...), inL...) {
 			if v > maxV {
 				return "bad-op"
 			}
@@ -192,6 +258,9 @@ func runC31(op string) string {
 		}
 		if has(2) {
 			ws = append(ws, g9Uint(7), g9Array(script))
+		}
+		if has(3) {
+			ws = append(ws, g9Uint(8), g9Array(script))
 		}
 		txb := g9Array(g9Map(body...), g9Map(ws...), []byte{0xf5}, []byte{0xf6})
 		var tx common.Transaction
@@ -230,6 +299,18 @@ func runC31(op string) string {
 			}
 			rules = conway.UtxoValidationRules
 			pp = &conway.ConwayProtocolParameters{CostModels: cm}
+		case "dijkstra":
+			t, err := dijkstra.NewDijkstraTransactionFromCbor(txb)
+			derr = err
+			if err == nil {
+				tx = t
+				gotRed = t.WitnessSet.WsRedeemers.Len()
+				gotDat = len(t.WitnessSet.WsPlutusData.Items())
+			}
+			rules = dijkstra.UtxoValidationRules
+			dp := &dijkstra.DijkstraProtocolParameters{}
+			dp.CostModels = cm
+			pp = dp
 		default:
 			return "bad-op"
 		}
@@ -239,7 +320,7 @@ func runC31(op string) string {
 		if gotRed != nred || gotDat != ndat {
 			return fmt.Sprintf("bad-op counts red=%d dat=%d", gotRed, gotDat)
 		}
-		ls := mockledger.NewLedgerStateBuilder().Build()
+		ls := mockledger.NewLedgerStateBuilder().WithUtxos(utxos).Build()
 		res := "ok"
 		found := false
 		for _, rule := range rules {
@@ -331,7 +412,8 @@ func c31Redeemers(r *Rand, era string, n int) []byte {
 		items = append(items, g9Array(g9Uint(uint64(r.Intn(4))), g9Uint(uint64(i)), c31Data(r), ex))
 		kv = append(kv, g9Array(g9Uint(uint64(r.Intn(4))), g9Uint(uint64(i))), g9Array(c31Data(r), ex))
 	}
-	if era == "conway" && r.Chance(2, 3) {
+	// Dijkstra decodes the map form only; Conway both
+	if era == "dijkstra" || (era == "conway" && r.Chance(2, 3)) {
 		return g9Map(kv...)
 	}
 	if r.Chance(1, 5) {
@@ -344,7 +426,7 @@ func c31Datums(r *Rand, era string, n int) []byte {
 	items := [][]byte{}
 	for i := 0; i < n; i++ {
 		d := c31Data(r)
-		if era == "conway" {
+		if era == "conway" || era == "dijkstra" {
 			// set semantics: keep items distinct
 			d = append([]byte{0x18}, byte(30+i))
 		}
@@ -354,14 +436,14 @@ func c31Datums(r *Rand, era string, n int) []byte {
 	if r.Chance(1, 5) {
 		arr = g9IndefArray(items...)
 	}
-	if era == "conway" && r.Chance(1, 2) && n > 0 {
+	if (era == "conway" || era == "dijkstra") && r.Chance(1, 2) && n > 0 {
 		return append([]byte{0xd9, 0x01, 0x02}, arr...)
 	}
 	return arr
 }
 
 func genC31(r *Rand, n int, tier string, emit func(string)) {
-	eras := []string{"alonzo", "babbage", "conway"}
+	eras := []string{"alonzo", "babbage", "conway", "dijkstra"}
 	for i := 0; i < n; i++ {
 		if r.Chance(1, 4) {
 			// direct: any subset of versions (also unsupported ones), shuffled cost-model listing
@@ -392,8 +474,8 @@ func genC31(r *Rand, n int, tier string, emit func(string)) {
 			emit("lv " + u + " " + c31CMString(cm, []uint{3, 0, 2, 1}))
 			continue
 		}
-		era := eras[r.Intn(3)]
-		maxV := map[string]int{"alonzo": 0, "babbage": 1, "conway": 2}[era]
+		era := eras[r.Intn(4)]
+		maxV := map[string]int{"alonzo": 0, "babbage": 1, "conway": 2, "dijkstra": 3}[era]
 		usedM := map[uint]struct{}{}
 		usedL := []uint{}
 		for v := 0; v <= maxV; v++ {
@@ -403,6 +485,20 @@ func genC31(r *Rand, n int, tier string, emit func(string)) {
 			}
 		}
 		c06Shuffle(r, usedL)
+		// reference scripts: languages carried by reference-input / spent-input UTxOs (Babbage+)
+		refs, ins := []string{}, []string{}
+		witOnly := append([]uint{}, usedL...)
+		if era != "alonzo" && r.Chance(1, 3) {
+			for k := 0; k < 1+r.Intn(3); k++ {
+				v := uint(r.Intn(maxV + 1))
+				if r.Bool() {
+					refs = append(refs, fmt.Sprint(v))
+				} else {
+					ins = append(ins, fmt.Sprint(v))
+				}
+				usedM[v] = struct{}{}
+			}
+		}
 		cm := map[uint][]int64{}
 		for v := uint(0); v < 4; v++ {
 			if !r.Chance(1, 12) {
@@ -413,7 +509,8 @@ func genC31(r *Rand, n int, tier string, emit func(string)) {
 		ndat := Pick(r, 0, 0, 1, 2)
 		red := "-"
 		var redB []byte
-		if nred > 0 || r.Chance(1, 3) {
+		// (the Dijkstra decoder refuses an empty redeemers structure: non-empty by its CDDL)
+		if nred > 0 || (era != "dijkstra" && r.Chance(1, 3)) {
 			redB = c31Redeemers(r, era, nred)
 			red = hexs(redB)
 		}
@@ -427,7 +524,7 @@ func genC31(r *Rand, n int, tier string, emit func(string)) {
 		lv, okLv := c31LangViews(usedM, cm)
 		redPart := redB
 		if red == "-" {
-			if era == "conway" {
+			if era == "conway" || era == "dijkstra" {
 				redPart = []byte{0xa0}
 			} else {
 				redPart = []byte{0x80}
@@ -478,14 +575,24 @@ func genC31(r *Rand, n int, tier string, emit func(string)) {
 		default:
 			decl = hexs(ih)
 		}
-		us := make([]string, len(usedL))
-		for k, v := range usedL {
+		us := make([]string, len(witOnly))
+		for k, v := range witOnly {
 			us[k] = fmt.Sprint(v)
 		}
 		u := "-"
 		if len(us) > 0 {
 			u = strings.Join(us, ",")
 		}
-		emit(fmt.Sprintf("sdh %s %s %d %s %d %s %s %s %s %s", era, red, nred, dat, ndat, u, c31CMString(cm, []uint{0, 1, 2, 3}), decl, hexs(ipre), hexs(ih)))
+		line := fmt.Sprintf("sdh %s %s %d %s %d %s %s %s %s %s", era, red, nred, dat, ndat, u, c31CMString(cm, []uint{0, 1, 2, 3}), decl, hexs(ipre), hexs(ih))
+		if len(refs)+len(ins) > 0 {
+			j := func(l []string) string {
+				if len(l) == 0 {
+					return "-"
+				}
+				return strings.Join(l, ",")
+			}
+			line += " " + j(refs) + " " + j(ins)
+		}
+		emit(line)
 	}
 }
